@@ -346,9 +346,21 @@ pub fn fanin_worlds(tier: Tier, mk: impl Fn(usize) -> Op) -> Vec<WorldSpec> {
             (1, true) => vec![(7, 4)],
             (1, false) => vec![(9, 5)],
             (2, true) => vec![(5, 3), (4, 4)],
-            (2, false) => vec![(7, 3), (6, 4)],
+            (2, false) => {
+                if matches!(mk(2), Op::Concat(_)) {
+                    vec![(8, 4), (7, 5)]
+                } else {
+                    vec![(7, 3), (6, 4)]
+                }
+            },
             (_, true) => vec![(4, 2)],
-            (_, false) => vec![(5, 3)],
+            (_, false) => {
+                if matches!(mk(3), Op::Concat(_)) {
+                    vec![(7, 3), (6, 4)]
+                } else {
+                    vec![(5, 3)]
+                }
+            },
         };
         for (e, d) in bs {
             let mut s = spec(mk(n), e, d);
@@ -426,9 +438,9 @@ pub fn c14_worlds(tier: Tier) -> Vec<WorldSpec> {
         .map(|op| {
             let (e, d) = match (&op, q(tier)) {
                 (Op::Concat(3), true) | (Op::Flatten, true) => (8, 4),
-                (Op::Concat(3), false) | (Op::Flatten, false) => (10, 5),
+                (Op::Concat(3), false) | (Op::Flatten, false) => (12, 6),
                 (_, true) => (9, 5),
-                (_, false) => (12, 6),
+                (_, false) => (14, 7),
             };
             let mut s = spec(op, e, d);
             s.cfg.modes = vec![PMode::Pullable; 4];
@@ -457,7 +469,7 @@ pub fn c15_worlds(tier: Tier) -> Vec<WorldSpec> {
         lists.extend(next.iter().cloned());
         frontier = next;
     }
-    let (e, d) = if q(tier) { (8, 4) } else { (11, 6) };
+    let (e, d) = if q(tier) { (8, 4) } else { (13, 7) };
     let mut v: Vec<WorldSpec> = lists
         .into_iter()
         .map(|xs| {
